@@ -333,6 +333,12 @@ impl<T: RealNumber> RandomForestClassifier<T> {
             let size = ((n_samples as f64) / *class_weight_l) as usize;
             for _ in 0..size {
                 let xi: usize = rng.gen_range(0..n_samples);
+                #[cfg(feature = "verif-hooks")]
+                let xi: usize = crate::verif_hooks::choose(
+                    crate::verif_hooks::Draw::ForestClassifierBootstrap,
+                    n_samples,
+                )
+                .unwrap_or(xi);
                 samples[index[xi]] += 1;
             }
         }
